@@ -1,5 +1,213 @@
 (* C01 -- Request framing is unambiguous and agrees with RFC 9112.
-   Statements only; proofs are in Proof/C01*.v. *)
-From Coq Require Import List NArith.
-From WV Require Import Lib.PyBytes Spec.Ref9112.
+   Statements only; proofs are in Proof/C01*.v.  The goal statement is
+   C01Observe.C01_full (observe (feed a [s]) = ref_run a s); it is refuted for
+   the unchanged code (C01_full_is_refuted, known findings) and is proved layer
+   by layer: T1 head, T2 bodies, T3 framing decision, T5 close decision, each
+   for all inputs, each against the deviation-free reference outside the
+   named known-finding classes (_partial) with a witness inside (_refuted). *)
+From Coq Require Import List NArith ZArith Bool.
+From WV Require Import Lib.PyBytes Lib.Regex Gen.GenRegex Model.Receiver Model.UrlSplit Model.Parser Model.ChanSeq.
+From WV Require Import Spec.Ref9112 Proof.C01Lib Proof.C01Framing Proof.C01Head Proof.C01Body Proof.C01Close
+  Proof.C01Refuse Proof.C01Observe.
 Import ListNotations.
+Local Open Scope N_scope.
+
+(* ---- T1: the field section ------------------------------------------------ *)
+
+Theorem C01_T1_field_line : forall h l, line_ok l ->
+  add_header_line h l = match parse_field_line l with
+                        | None => inl EInvalidHeader
+                        | Some f => ref_add h f
+                        end.
+Proof. exact add_header_line_ref. Qed.
+Print Assumptions C01_T1_field_line.
+
+Theorem C01_T1_head : forall ls, Forall bytes_ok ls -> Forall (fun l => l <> []) ls ->
+  match header_lines_go ls [] with
+  | inl e => head_fields ls = None /\ perr_code e = 400
+  | inr joined =>
+    match add_header_lines [] joined with
+    | inl (e, _) => head_fields ls = None /\ perr_code e = 400
+    | inr h => exists fs, head_fields ls = Some fs /\ combined fs = h
+    end
+  end.
+Proof. exact head_equiv. Qed.
+Print Assumptions C01_T1_head.
+
+(* ---- T2: bodies ----------------------------------------------------------- *)
+
+Theorem C01_T2_fixed : forall n s, 0 < n -> n <= lenN s ->
+  fixed_received (fixed_init n) s =
+  ({| f_remain := 0; f_buf := firstn (N.to_nat n) s; f_completed := true |}, Z.of_N n).
+Proof. exact fixed_equiv_complete. Qed.
+Print Assumptions C01_T2_fixed.
+
+Theorem C01_T2_fixed_short : forall n s, lenN s < n ->
+  fixed_received (fixed_init n) s =
+  ({| f_remain := n - lenN s; f_buf := s; f_completed := false |}, Z.of_N (lenN s)).
+Proof. exact fixed_equiv_incomplete. Qed.
+Print Assumptions C01_T2_fixed_short.
+
+Theorem C01_T2_chunked_dev : forall s, bytes_ok s ->
+  agrees (ref_chunked d_recv s) (chunked_received chunked_init s) (Z.of_nat (length s)) (lenN s).
+Proof. exact chunked_equiv_dev. Qed.
+Print Assumptions C01_T2_chunked_dev.
+
+Theorem C01_T2_chunked_partial : forall s, bytes_ok s ->
+  ref_chunked no_devs s = ref_chunked d_recv s ->
+  agrees (ref_chunked no_devs s) (chunked_received chunked_init s) (Z.of_nat (length s)) (lenN s).
+Proof. exact chunked_equiv_partial. Qed.
+Print Assumptions C01_T2_chunked_partial.
+
+Theorem C01_T2_chunked_done : forall s body rest, bytes_ok s ->
+  ref_chunked d_recv s = ChDone body rest ->
+  exists st, chunked_received chunked_init s = Some (st, Z.of_nat (length s - length rest))
+             /\ c_completed st = true /\ c_error st = None /\ c_buf st = body.
+Proof. exact chunked_equiv_done. Qed.
+Print Assumptions C01_T2_chunked_done.
+
+Theorem C01_T2_refuted_trailer :
+  ref_chunked no_devs f10_body = ChBad (lenN f10_body) /\
+  exists st, chunked_received chunked_init f10_body = Some (st, 10%Z) /\ c_completed st = true /\ c_error st = None.
+Proof. exact chunked_refuted_trailer. Qed.
+Print Assumptions C01_T2_refuted_trailer.
+
+Theorem C01_T2_refuted_empty_line :
+  ref_chunked no_devs f11_body = ChBad (lenN f11_body) /\
+  exists st, chunked_received chunked_init f11_body = Some (st, 7%Z) /\ c_completed st = true /\ c_error st = None.
+Proof. exact chunked_refuted_empty_line. Qed.
+Print Assumptions C01_T2_refuted_empty_line.
+
+(* ---- T3: the framing decision ---------------------------------------------- *)
+
+Theorem C01_T3_parse_header : forall a p hp index lines h1 cmd uri ver sc nl pa qu fr,
+  chunked p = false -> body p = None ->
+  find hp CRLF = Some index ->
+  let fl := rstrip_by is_bytes_ws (firstn index hp) in
+  has_cr_or_lf fl = false ->
+  get_header_lines (skipn (index + 2) hp) = inr lines ->
+  add_header_lines (headers p) lines = inr h1 ->
+  crack_first_line fl = Some (cmd, uri, ver) ->
+  beqb cmd [] && beqb uri [] && beqb ver [] = false ->
+  split_uri uri = SOk sc nl pa qu fr ->
+  let '(p', st) := parse_header a p hp in
+  command p' = cmd /\ request_uri p' = uri /\ version p' = ver /\
+  match model_framing h1 ver with
+  | MRefuse e => st = PSError e
+  | MChunked =>
+      st = PSOk /\ chunked p' = true /\ body p' = Some (BChunked chunked_init)
+      /\ headers p' = hpop (hpop h1 s_TRANSFER_ENCODING) s_CONTENT_LENGTH
+      /\ (forall v, hget h1 s_CONTENT_LENGTH = Some v -> connection_close p' = true)
+  | MLen n =>
+      st = PSOk /\ chunked p' = false /\ body p' = Some (BFixed (fixed_init n)) /\ content_length p' = n
+  | MNone =>
+      st = PSOk /\ chunked p' = false /\ body p' = None /\ content_length p' = 0
+  end.
+Proof. exact parse_header_framing. Qed.
+Print Assumptions C01_T3_parse_header.
+
+Theorem C01_T3_framing_dev : forall h ver,
+  (forall v, hget h s_CONTENT_LENGTH = Some v -> clean v = true) ->
+  choice_framing (model_framing h ver) = framing_of dev_te_ws ver h.
+Proof. exact framing_decision_dev. Qed.
+Print Assumptions C01_T3_framing_dev.
+
+Theorem C01_T3_framing_partial : forall h ver,
+  (forall v, hget h s_CONTENT_LENGTH = Some v -> clean v = true) ->
+  te_ws_free h = true ->
+  choice_framing (model_framing h ver) = framing_of no_devs ver h.
+Proof. exact framing_decision_partial. Qed.
+Print Assumptions C01_T3_framing_partial.
+
+Theorem C01_T3_framing_refuted :
+  exists h ver, (forall v, hget h s_CONTENT_LENGTH = Some v -> clean v = true) /\
+                choice_framing (model_framing h ver) <> framing_of no_devs ver h.
+Proof. exact framing_decision_refuted. Qed.
+Print Assumptions C01_T3_framing_refuted.
+
+(* ---- T5: close after the message -------------------------------------------- *)
+
+Theorem C01_T5_close_dev : forall dict ver,
+  model_close ver (hget_default dict s_CONNECTION []) = close_after_of dev_persist ver dict.
+Proof. exact close_decision_dev. Qed.
+Print Assumptions C01_T5_close_dev.
+
+Theorem C01_T5_close_partial : forall dict ver,
+  close_classes ver dict = false ->
+  model_close ver (hget_default dict s_CONNECTION []) = close_after_of no_devs ver dict.
+Proof. exact close_decision_partial. Qed.
+Print Assumptions C01_T5_close_partial.
+
+Theorem C01_T5_refuted_clte :
+  close_after_of no_devs v11 f7_dict = true /\ model_close v11 (hget_default f7_dict s_CONNECTION []) = false.
+Proof. exact close_refuted_clte. Qed.
+Print Assumptions C01_T5_refuted_clte.
+
+Theorem C01_T5_refuted_te_http10 :
+  close_after_of no_devs v10 f8_dict = true /\ model_close v10 (hget_default f8_dict s_CONNECTION []) = false.
+Proof. exact close_refuted_te_http10. Qed.
+Print Assumptions C01_T5_refuted_te_http10.
+
+Theorem C01_T5_refuted_conn_list :
+  close_after_of no_devs v11 conn_list_dict = true
+  /\ model_close v11 (hget_default conn_list_dict s_CONNECTION []) = false.
+Proof. exact close_refuted_conn_list. Qed.
+Print Assumptions C01_T5_refuted_conn_list.
+
+(* ---- the refusal half --------------------------------------------------------- *)
+
+Theorem C01_refuse_bare_cr_lf : forall ls l r,
+  In l ls -> has_cr_or_lf l = true ->
+  exists e, header_lines_go ls r = inl e /\ perr_code e = 400.
+Proof. exact bare_cr_lf_refused. Qed.
+Print Assumptions C01_refuse_bare_cr_lf.
+
+Theorem C01_refuse_bad_field_name : forall pre post h,
+  line_ok (pre ++ 58 :: post) ->
+  forallb (fun x => negb (x =? 58)) pre = true ->
+  nonempty pre && forallb is_tchar pre = false ->
+  add_header_line h (pre ++ 58 :: post) = inl EInvalidHeader.
+Proof.
+  exact (fun pre post h Hl Hc Hn => bad_field_name_refused h _ Hl (non_token_name pre post Hc Hn)).
+Qed.
+Print Assumptions C01_refuse_bad_field_name.
+
+Theorem C01_refuse_repeated_single : forall h l name value old, line_ok l ->
+  parse_field_line l = Some (name, value) -> memb 95 name = false ->
+  is_single_key (norm_name name) = true -> hget h (norm_name name) = Some old ->
+  add_header_line h l = inl EDuplicateHeader.
+Proof. exact repeated_single_line. Qed.
+Print Assumptions C01_refuse_repeated_single.
+
+Theorem C01_refuse_repeated_single_ref : forall fs1 n1 v1 fs2 n2 v2 fs3 seen k,
+  is_single_key k = true -> norm_name n1 = k -> norm_name n2 = k ->
+  no_repeated_single seen (fs1 ++ (n1, v1) :: fs2 ++ (n2, v2) :: fs3) = false.
+Proof. exact repeated_single_refused. Qed.
+Print Assumptions C01_refuse_repeated_single_ref.
+
+Theorem C01_refuse_bad_content_length : forall h ver v,
+  hget h s_TRANSFER_ENCODING = None ->
+  hget h s_CONTENT_LENGTH = Some v -> clean v = true ->
+  nonempty v && forallb is_dig v = false ->
+  model_framing h ver = MRefuse EContentLengthInvalid.
+Proof. exact bad_content_length_refused. Qed.
+Print Assumptions C01_refuse_bad_content_length.
+
+Theorem C01_refuse_bad_transfer_encoding : forall h,
+  te_encodings (hget_default h s_TRANSFER_ENCODING []) <> [] ->
+  te_encodings (hget_default h s_TRANSFER_ENCODING []) <> [s_chunked] ->
+  exists e, model_framing h s_1_1 = MRefuse e /\ perr_code e = 501.
+Proof. exact bad_transfer_encoding_refused. Qed.
+Print Assumptions C01_refuse_bad_transfer_encoding.
+
+Theorem C01_cl_with_te_is_chunked : forall h,
+  te_encodings (hget_default h s_TRANSFER_ENCODING []) = [s_chunked] ->
+  model_framing h s_1_1 = MChunked.
+Proof. exact cl_with_te_is_chunked. Qed.
+Print Assumptions C01_cl_with_te_is_chunked.
+
+(* ---- the goal statement ---------------------------------------------------------- *)
+
+Theorem C01_full_is_refuted : ~ C01_full.
+Proof. exact C01_full_refuted. Qed.
+Print Assumptions C01_full_is_refuted.
